@@ -125,6 +125,10 @@ func (g *G) CDXTreeDocument(maxNodes int) *sbom.Document {
 	g.R.Shuffle(len(d.NodeList.Edges), func(i, j int) {
 		d.NodeList.Edges[i], d.NodeList.Edges[j] = d.NodeList.Edges[j], d.NodeList.Edges[i]
 	})
+	// the node list in any order too: so far every parent precedes its children in it
+	g.R.Shuffle(len(d.NodeList.Nodes), func(i, j int) {
+		d.NodeList.Nodes[i], d.NodeList.Nodes[j] = d.NodeList.Nodes[j], d.NodeList.Nodes[i]
+	})
 	if g.Chance(0.5) {
 		for k := 1 + g.Int(3); k > 0; k-- {
 			if g.Chance(0.35) {
